@@ -77,13 +77,15 @@ class RawRecordingStream(io.RawIOBase):
 
 
 class ShortReadStream(io.RawIOBase):
-    """a raw stream that, from byte position `start' on, hands out at most `limit' bytes per call (raw streams may
-    always return fewer bytes than asked for: pipes, sockets, device files, very large reads)"""
+    """a raw stream that hands out at most `limit' bytes per call while positioned inside raw data (raw streams may always
+    return fewer bytes than asked for: pipes, sockets, device files, very large reads).  `regions' = [(start, end), ...]
+    of raw data; an int means "from there to the end"."""
 
-    def __init__(self, data, start, limit):
+    def __init__(self, data, regions, limit):
         io.RawIOBase.__init__(self)
         self._b = io.BytesIO(data)
-        self._start, self._limit = start, limit
+        self._regions = [(regions, len(data))] if isinstance(regions, int) else list(regions)
+        self._limit = limit
 
     def readable(self):
         return True
@@ -92,7 +94,8 @@ class ShortReadStream(io.RawIOBase):
         return True
 
     def readinto(self, buf):
-        if self._b.tell() >= self._start and len(buf) > self._limit:
+        pos = self._b.tell()
+        if len(buf) > self._limit and any(a <= pos < b for a, b in self._regions):
             part = self._b.read(self._limit)
             memoryview(buf).cast("B")[:len(part)] = part
             return len(part)
